@@ -8,6 +8,7 @@
 package verifrt
 
 import (
+	"bytes"
 	"context"
 	"encoding/hex"
 	"encoding/json"
@@ -30,7 +31,10 @@ import (
 	codectypes "github.com/cosmos/cosmos-sdk/codec/types"
 	"github.com/cosmos/cosmos-sdk/runtime"
 	sdk "github.com/cosmos/cosmos-sdk/types"
+	authtypes "github.com/cosmos/cosmos-sdk/x/auth/types"
 	"github.com/cosmos/gogoproto/proto"
+	ethcommon "github.com/ethereum/go-ethereum/common"
+	ethcrypto "github.com/ethereum/go-ethereum/crypto"
 )
 
 // ---------------------------------------------------------------------------------------------
@@ -289,9 +293,35 @@ func Ite8(c bool, a, b byte) byte {
 	return b
 }
 
+// PRIMITIVE. IsASCII reports whether every byte of s is below 0x80 (single term).
+func IsASCII(s string) bool {
+	for i := 0; i < len(s); i++ {
+		if s[i] >= 0x80 {
+			return false
+		}
+	}
+	return true
+}
+
 // PRIMITIVE. Concrete returns v; symbolically it case-splits on the value of v (0..max) so that
 // everything computed from the result is concrete on each path.
 func Concrete(v int, max int) int { return v }
+
+// PRIMITIVE.
+func IteInt(c bool, a, b int) int {
+	if c {
+		return a
+	}
+	return b
+}
+
+// Tail is b[off:], or the empty slice when b is shorter (ordinary Go).
+func Tail(b []byte, off int) []byte {
+	if len(b) < off {
+		return []byte{}
+	}
+	return b[off:]
+}
 
 // PRIMITIVE.
 func Ite64(c bool, a, b uint64) uint64 {
@@ -350,6 +380,12 @@ func (e *Env) KeysReadBy(f func()) [][]byte {
 // EventsMayFail makes every typed-event emission return an arbitrary error or nil (symbolic mode);
 // natively events never fail, so replays of such paths are skipped.
 func (e *Env) EventsMayFail(on bool) { envEventsMayFail(e.h, on) }
+
+// EventFailures is the number of event emissions that failed since the environment was created.
+func (e *Env) EventFailures() int { return envEventFailures(e.h) }
+
+// PRIMITIVE
+func envEventFailures(h int) int { return 0 }
 
 // RawSet / RawGet give direct access to the module store (pre-state construction, store comparison).
 func (e *Env) RawSet(key, value []byte) { envRawSet(e.h, key, value) }
@@ -556,27 +592,37 @@ type Addr struct {
 	Bytes []byte // the 20 address bytes when Valid
 }
 
-// PRIMITIVE. NondetAddr ranges over three classes: the canonical (lower-case) bech32 spelling of 20
-// arbitrary bytes, the all-upper-case spelling of 20 arbitrary bytes (also accepted by the SDK), and
-// a string that is not a valid address (any string of at most 6 bytes).
+// PRIMITIVE. NondetAddr ranges over four classes: the canonical (lower-case) bech32 spelling of 20
+// arbitrary bytes, the all-upper-case spelling of 20 arbitrary bytes (also accepted by the SDK), a
+// string that is not a valid address (any string of at most 6 bytes), and the canonical spelling
+// preceded by one space (not a valid address).
 func NondetAddr(name string) Addr {
 	cls := valUint(name + "_class")
-	switch cls {
-	case 0, 1:
-		bz := NondetBytes(name+"_bytes", 20)
-		if len(bz) != 20 {
-			bz = append(bz, make([]byte, 20)...)[:20]
-		}
-		s, err := sdk.Bech32ifyAddressBytes(sdk.GetConfig().GetBech32AccountAddrPrefix(), bz)
-		if err != nil {
-			panic(err)
-		}
-		if cls == 1 {
-			s = strings.ToUpper(s)
-		}
-		return Addr{Str: s, Valid: true, Bytes: bz}
+	bz := NondetBytes(name+"_bytes", 20)
+	if len(bz) != 20 {
+		bz = append(bz, make([]byte, 20)...)[:20]
 	}
-	return Addr{Str: string(NondetBytes(name+"_junk", 6)), Valid: false}
+	s, err := sdk.Bech32ifyAddressBytes(sdk.GetConfig().GetBech32AccountAddrPrefix(), bz)
+	if err != nil {
+		panic(err)
+	}
+	switch cls {
+	case 0:
+		return Addr{Str: s, Valid: true, Bytes: bz}
+	case 1:
+		return Addr{Str: strings.ToUpper(s), Valid: true, Bytes: bz}
+	case 3:
+		return Addr{Str: " " + s, Valid: false, Bytes: bz}
+	}
+	return Addr{Str: string(NondetBytes(name+"_junk", 6)), Valid: false, Bytes: bz}
+}
+
+// PRIMITIVE. ByteAt is s[i], or 0 when i is out of range (never panics, never forks).
+func ByteAt(s string, i int) byte {
+	if i < 0 || i >= len(s) {
+		return 0
+	}
+	return s[i]
 }
 
 // AddrOf is the canonical account string of 20 bytes (ordinary Go: bech32 is modelled by the engine).
@@ -665,3 +711,49 @@ func IntFitsU256(a math.Int) bool {
 
 // PRIMITIVE. IntU64 builds a math.Int from a uint64.
 func IntU64(v uint64) math.Int { return math.NewIntFromUint64(v) }
+
+// ---------------------------------------------------------------------------------------------
+// Fork-free byte access and the cryptographic vocabulary of the specifications.
+
+// PRIMITIVE. SubBytes returns the n bytes of b starting at off, zero-padded where b is shorter
+// (never panics, never forks). off and n are concrete.
+func SubBytes(b []byte, off, n int) []byte {
+	out := make([]byte, n)
+	if off < len(b) {
+		copy(out, b[off:])
+	}
+	return out
+}
+
+// PRIMITIVE. Keccak is Keccak-256.
+func Keccak(b []byte) []byte { return ethcrypto.Keccak256(b) }
+
+// PRIMITIVE. Recover is secp256k1 public-key recovery on a 32-byte digest and a 65-byte signature
+// whose last byte is the recovery id 0..3; ok is false when recovery fails.
+func Recover(digest, sig []byte) (key []byte, ok bool) {
+	k, err := ethcrypto.Ecrecover(digest, sig)
+	if err != nil || len(k) != 65 {
+		return make([]byte, 65), false
+	}
+	return k, true
+}
+
+// PRIMITIVE. EthAddr is the Ethereum-style address of an uncompressed 65-byte public key.
+func EthAddr(key []byte) []byte {
+	if len(key) != 65 {
+		return make([]byte, 20)
+	}
+	return ethcrypto.Keccak256(key[1:])[12:]
+}
+
+// PRIMITIVE. FromHex decodes an attester spelling the way the module does.
+func FromHex(s string) []byte { return ethcommon.FromHex(s) }
+
+// PRIMITIVE. BytesLess is lexicographic a < b (single term).
+func BytesLess(a, b []byte) bool { return bytes.Compare(a, b) < 0 }
+
+// PRIMITIVE. LowerEq reports whether got is the ASCII lower-casing of s (s is ASCII).
+func LowerEq(got, s string) bool { return got == strings.ToLower(s) }
+
+// PRIMITIVE. ModuleAddr is the account address of the named module.
+func ModuleAddr(name string) []byte { return authtypes.NewModuleAddress(name) }
